@@ -45,7 +45,7 @@ fn describe(m: &ModelCfg) -> String {
         m.layers.iter().map(|l| l.describe()).collect::<Vec<_>>().join(","),
         m.cost.name(),
         m.lr,
-        ["mixed", "negative", "positive"][(m.salt / 1000) as usize]
+        ["mixed", "negative", "positive"][(m.salt / 1000).min(2) as usize]
     )
 }
 
@@ -192,6 +192,17 @@ fn model_space(tier: Tier) -> Vec<ModelCfg> {
     let conv1 = LayerCfg::Conv { count: 2, depth: 1, fr: 2, fc: 2, sr: 1, sc: 1, act: Act::Relu };
     let conv1s = LayerCfg::Conv { count: 1, depth: 2, fr: 2, fc: 2, sr: 2, sc: 1, act: Act::Sigmoid };
     let conv2 = LayerCfg::Conv { count: 1, depth: 2, fr: 2, fc: 2, sr: 1, sc: 1, act: Act::None };
+    let conv_a = LayerCfg::Conv { count: 2, depth: 1, fr: 2, fc: 2, sr: 1, sc: 1, act: Act::Sigmoid };
+    let conv_b = LayerCfg::Conv { count: 1, depth: 2, fr: 1, fc: 2, sr: 2, sc: 1, act: Act::None };
+    let conv_c = LayerCfg::Conv { count: 2, depth: 2, fr: 2, fc: 1, sr: 1, sc: 2, act: Act::Relu };
+    for (layers, inputs) in [
+        (vec![conv_a.clone(), conv_b.clone()], vec![vec![1, 4, 4], vec![2, 1, 4, 4], vec![3, 1, 4, 4]]),
+        (vec![conv_a.clone(), conv_c.clone()], vec![vec![1, 4, 5], vec![2, 1, 4, 5]]),
+    ] {
+        for salt in [7u64, 2007] {
+            out.push(ModelCfg { layers: layers.clone(), cost: CostK::Mse, lr: 0.25, salt, inputs: inputs.clone() });
+        }
+    }
     for (layers, inputs) in [
         (vec![conv1.clone()], vec![vec![1, 3, 3], vec![2, 1, 3, 3], vec![1, 1, 3, 3]]),
         (vec![conv1s.clone()], vec![vec![2, 4, 3], vec![2, 2, 4, 3]]),
